@@ -151,7 +151,11 @@ func (m *Manager) handlePotentialHeader(ctx context.Context, bz []byte, daHeight
 		default:
 			m.logger.Warn("headerInCh backlog full, dropping header: daHeight ", daHeight)
 		}
-		m.headerInCh <- NewHeaderEvent{header, daHeight}
+		select {
+		case <-ctx.Done():
+			return true
+		case m.headerInCh <- NewHeaderEvent{header, daHeight}:
+		}
 	}
 	return true
 }
@@ -186,7 +190,11 @@ func (m *Manager) handlePotentialData(ctx context.Context, bz []byte, daHeight u
 		default:
 			m.logger.Warn("dataInCh backlog full, dropping signed data", "daHeight", daHeight)
 		}
-		m.dataInCh <- NewDataEvent{&signedData.Data, daHeight}
+		select {
+		case <-ctx.Done():
+			return
+		case m.dataInCh <- NewDataEvent{&signedData.Data, daHeight}:
+		}
 	}
 }
 
